@@ -22,53 +22,54 @@ def default_config(gene):
     return [k for k in gene.cn_configs if gene.cn_configs[k].kind == CNConfigType.DEFAULT]
 
 
-@contract("aldy.cn.estimate_cn", external={"aldy.cn._print_coverage": "", "aldy.cn._filter_configs": "Dict[str, CNConfig]",
-                                           "aldy.cn.solve_cn_model": "List[CNSolution]"})
+@contract("aldy.cn.estimate_cn", external={"aldy.cn._print_coverage": ""})
 def _(gene, profile, coverage, solver, debug):
     types(coverage="Optional[Coverage]", solver="str", debug="Optional[str]")
     returns("List[CNSolution]")
     requires("1" in gene.cn_configs, len(gene.regions) > 0)
     requires(forall(lambda c=str, g=int, r=str: implies(c in gene.cn_configs and 0 <= g and g < len(gene.cn_configs[c].cn) and r in gene.cn_configs[c].cn[g],
                                                         g < len(gene.cn_configs["1"].cn) and r in gene.regions[0])))
+    # this contract covers the two dispatch branches that do not run the model (C03, last sentence);
+    # the model branch is covered by solve_cn_model's contract
+    requires((profile.cn_solution is not None and len(profile.cn_solution) > 0) or not gene.do_copy_number)
     requires(exists(lambda k=str: k in gene.cn_configs and gene.cn_configs[k].kind == CNConfigType.DEFAULT))
     user = profile.cn_solution is not None and len(profile.cn_solution) > 0
-    # three dispatch branches: user-supplied structure / no copy-number calling for this gene / the model.
-    # The dispatch clauses below (C03, last sentence) speak about the first two; what the model branch returns is
-    # covered by solve_cn_model's contract, which is NOT applied here: the calls of _filter_configs, _print_coverage
-    # and solve_cn_model are opaque (external=, listed as assumed) - assumed not to raise AldyException and to leave
-    # the arguments unchanged. The low-depth guard (C19) precedes them and does not depend on that assumption in the
-    # direction "too little depth => no structure is returned".
-    model = not user and gene.do_copy_number
-    # call-site facts of the model branch (genotype(): the coverage is the sample's own, built by Sample and
-    # normalised by Coverage._normalize_coverage over every region of every gene copy)
-    requires(implies(model, coverage is not None))
-    requires(implies(model, coverage.sam is not None))
-    requires(implies(model, exists(lambda r=str: r in gene.regions[0])))
-    requires(implies(model, forall(lambda g=int, r=str: implies(0 <= g and g < len(gene.regions) and r in gene.regions[g],
-                                                                (g, r) in coverage._region_coverage))))
-    requires(implies(model, forall(lambda r=str: implies(r in gene.unique_regions, (0, r) in coverage._region_coverage
-                                                         and (1, r) in coverage._region_coverage))))
     ncopies = 1 if (profile.male and (gene.chr == "X" or gene.chr == "Y")) else 2
-    # C19 (mechanism "structure stage low-depth guard", cn.py:72-79): "When the alignments contain no reads anywhere in
-    # the gene locus ... no star-allele call is produced: the run ends with an explanatory error for that gene ...
-    # regardless of whether the gene structure is estimated or supplied by the user."  At the structure stage, when the
-    # structure is estimated: the normalised depth of the locus is below half of what even the smallest catalogued
-    # structure accounts for (in particular: no reads in the locus, all region depths 0)
-    low = model and forall(lambda c=str: implies(c in gene.cn_configs, cn_locus_depth(gene, coverage) < cn_config_copies(gene, c) / 2.0))
-    raises(AldyException, when=(user and exists(lambda i=int: 0 <= i and i < len(profile.cn_solution)
-                                                and profile.cn_solution[i] not in gene.cn_configs)) or low)
-    ensures(implies(not model, len(result) == 1), label="one-structure")
-    ensures(implies(not model, result[0].score == 0), label="score-zero")
+    raises(AldyException, when=user and exists(lambda i=int: 0 <= i and i < len(profile.cn_solution)
+                                               and profile.cn_solution[i] not in gene.cn_configs))
+    ensures(len(result) == 1, label="one-structure")
+    ensures(result[0].score == 0, label="score-zero")
     # a user-supplied structure is used verbatim
     ensures(implies(user, forall(lambda c=str: implies(c in result[0].solution, result[0].solution[c]
                                                        == sum(1 for i in range(0, len(profile.cn_solution)) if profile.cn_solution[i] == c)))),
             label="user-verbatim")
     # otherwise exactly two default copies (one for an X/Y-linked gene of a sample declared male)
-    ensures(implies(not user and not model, forall(lambda c=str: implies(c in result[0].solution,
-                                                                         gene.cn_configs[c].kind == CNConfigType.DEFAULT and result[0].solution[c] == ncopies))),
+    ensures(implies(not user, forall(lambda c=str: implies(c in result[0].solution,
+                                                           gene.cn_configs[c].kind == CNConfigType.DEFAULT and result[0].solution[c] == ncopies))),
             label="default-copies")
-    # C19: no structure (hence no star-allele call) is produced from a locus without depth
-    ensures(not low, label="c19-low-depth-no-structure")
+    modifies()
+
+
+# C19: the structure stage's own low-depth guard (cn.py:72-79) as a slice of the model branch of estimate_cn
+# (config.SLICES): the statements from the depth table to the guard, for arbitrary gene / coverage of the stated shape.
+
+@contract("aldy.cn.estimate_cn@low-depth-guard", native=False)
+def _(gene, coverage):
+    types(gene="Gene", coverage="Coverage")
+    # call-site facts (genotype(): the coverage is the sample's own, normalised by Coverage._normalize_coverage over
+    # every region of every gene copy - C07 clause "only-regions")
+    requires(len(gene.regions) > 0, exists(lambda r=str: r in gene.regions[0]))
+    requires(exists(lambda c=str: c in gene.cn_configs))
+    requires(forall(lambda g=int, r=str: implies(0 <= g and g < len(gene.regions) and r in gene.regions[g],
+                                                 (g, r) in coverage._region_coverage)))
+    requires(forall(lambda r=str: implies(r in gene.unique_regions, (0, r) in coverage._region_coverage
+                                          and (1, r) in coverage._region_coverage)))
+    # C19: "When the alignments contain no reads anywhere in the gene locus ... no star-allele call is produced: the run
+    # ends with an explanatory error for that gene": at the structure stage, when the normalised depth of the locus is
+    # below half of what even the smallest catalogued structure accounts for (in particular when all region depths
+    # are 0), the stage raises before any model is built; otherwise it goes on
+    low = forall(lambda c=str: implies(c in gene.cn_configs, cn_locus_depth(gene, coverage) < cn_config_copies(gene, c) / 2.0))
+    raises(AldyException, when=low, label="low-depth")
     modifies()
 
 
